@@ -99,7 +99,8 @@ class CXX2C(Emitter, ExprMixin, LibMixin, StmtMixin):
         for k, text in items.items():
             body = text.split('{', 1)[1] if (k[0] == 'S' or text.startswith('typedef')) else text.split('(', 1)[1]
             toks = set(re.findall(r'[A-Za-z_]\w*', body))
-            deps[k] = {kk for kk in items if kk[1] in toks and kk != k}
+            byval = set(re.findall(r'[A-Za-z_]\w*(?!\w)(?!\s*\*)', body))     # a RECORD used only through a pointer needs no definition (forward typedefs are emitted)
+            deps[k] = {kk for kk in items if kk != k and (kk[1] in byval or (kk[0] != 'S' and kk[1] in toks))}
         order = []; seen = set()
         def visit(k, stack=()):
             if k in seen: return
@@ -117,6 +118,8 @@ class CXX2C(Emitter, ExprMixin, LibMixin, StmtMixin):
             L.append('typedef struct { int id; } %s; /* opaque: %s */' % (oc, q))
         for r_cn in sorted({t for t in self.opaque_records(types)}):
             L.append('typedef struct { int id; } %s; /* opaque record */' % r_cn)
+        fwd = sorted({cn for cn in self.used_records})
+        for cn in fwd: L.append('typedef struct %s %s;' % (cn, cn))
         L += types
         for s in self.statics.values():
             if s: L.append(s)
@@ -140,6 +143,9 @@ class CXX2C(Emitter, ExprMixin, LibMixin, StmtMixin):
     def default_stub_body(self, proto):
         m = re.match(r'(.*?)\s*(\w+)\((.*)\);$', proto, re.S)
         rt = m.group(1).strip(); params = m.group(3)
+        if m.group(2).startswith('cc_new_'):
+            base = rt[:-1].strip()
+            return '{ static %s pool_[CC_POOL]; static size_t n_; __CPROVER_assert(n_ < CC_POOL, "allocation pool of the check exceeded"); n_ = n_ + 1; return &pool_[n_ - 1]; }   /* distinct fresh objects */' % base
         if rt == 'void': return '{ }'
         if rt.endswith('*'):
             base = rt[:-1].replace('const ', '').strip()
